@@ -14,6 +14,8 @@ mod tests;
 
 pub use actors::DiscoveryMetrics;
 pub use api::{Discovery, DiscoveryError};
+#[cfg(p2panda_p2panda_verif)]
+pub use backoff::{Backoff as VerifBackoff, Config as VerifBackoffConfig};
 pub use builder::Builder;
 pub use config::DiscoveryConfig;
 pub use events::{DiscoveryEvent, SessionRole};
